@@ -8,4 +8,21 @@ type PropMeta struct {
 	Assumptions []string
 }
 
-var propMeta = map[string]PropMeta{}
+var commonAssumptions = []string{
+	"go/ssa form of the current /repo source is the semantics verified; the VC generator (govc) and the SMT solvers are trusted",
+	"integers are mathematical within their declared type ranges; wrap-around is only considered where an overflow obligation is listed",
+	"reasoning is sequential per function: other goroutines interfere only at lock acquisitions of fields declared guarded",
+	"user callbacks (handlers, middlewares, filters, context functions, loggers) respect their callspec: they modify only the ghost state the callspec names",
+	"termination is not proved except where a decreases clause is listed",
+}
+
+var propMeta = map[string]PropMeta{
+	"C17": {
+		NotCovered: "Wall-clock behaviour (that a wait really lasts the computed duration; promptness of cancellation) and the classification of concrete transport errors produced by net/http are not decided: the obligations fix the attempt count, the retry-only-after-transient rule, the clamping of every configuration, the value passed to time.After for every k, and exactly-once without a retry option. The power Factor^(k-1) is the float64 left-to-right product the property's formula denotes.",
+		Assumptions: append([]string{
+			"int<->float64 conversions are uninterpreted functions constrained by instances of monotonicity/exactness facts of IEEE-754 round-to-nearest-even and truncation (each instance is a theorem; listed in numconv.go)",
+			"the operation callback only bumps the ghost attempt counter and does not modify the retry configuration",
+			"Execute is called with a nil or validated configuration (established by WithRetry/WithSimpleRetry, checked as their postcondition)",
+		}, commonAssumptions...),
+	},
+}
